@@ -1205,6 +1205,20 @@ pub fn journal(quick: bool) -> Vec<Scenario> {
         )
         .journal()
         .budgets(0, 1, 0, 1),
+        // every job canceled at once: a closed job (completes) and an open one (stays live)
+        Scenario::new(
+            "journal-cancel-all-mixed",
+            vec![w(1)],
+            vec![
+                vec![
+                    sub(arr(&[0, 1], 1)),
+                    Req::OpenJob { max_fails: None },
+                    sub(arr(&[0, 1], 1).into_job(2)),
+                ],
+                vec![Req::CancelAll],
+            ],
+        )
+        .journal(),
         Scenario::new(
             "journal-prune",
             vec![w(1), w(1).spare()],
